@@ -4,6 +4,13 @@ use crate::{graphs, hist, retain, tables};
 use serde_json::{json, Value};
 use vcommon::evidence::Report;
 
+fn catch_long(builder: bool, size: usize) -> (u64, u64, Vec<vcommon::evidence::Violation>) {
+    match vcommon::evidence::catch(move || tables::long_tables(builder, size)) {
+        Ok(r) => r,
+        Err(p) => (1, 1, vec![vcommon::evidence::Violation { key: "long:panic".into(), msg: format!("panicked: {p}"), case: json!({"kind": "long-table", "builder": builder}) }]),
+    }
+}
+
 fn threads() -> usize {
     std::env::var("VERIF_THREADS").ok().and_then(|s| s.parse().ok()).unwrap_or_else(|| std::thread::available_parallelism().map(|n| n.get()).unwrap_or(4))
 }
@@ -15,7 +22,7 @@ pub fn run(pid: &'static str, thorough: bool) -> i32 {
     let mut transitions = 0u64;
     match pid {
         "C12" => {
-            let (bd, id) = if thorough { (9, 14) } else { (7, 12) };
+            let (bd, id) = if thorough { (8, 14) } else { (6, 12) };
             for (builder, depth) in [(true, bd), (false, id)] {
                 let st = tables::explore_layers(builder, depth);
                 // cross-check of the explorers at a smaller depth: stateright with 1 and N threads and the layered explorer agree
@@ -31,6 +38,14 @@ pub fn run(pid: &'static str, thorough: bool) -> i32 {
                 states += st.states;
                 transitions += st.transitions;
                 rep.extend(st.violations);
+            }
+            for builder in [true, false] {
+                let size = if thorough { 300 } else { 70 };
+                let r = catch_long(builder, size);
+                rep.set(if builder { "builder_long_tables" } else { "interner_long_tables" }, json!({"distinct_values": size, "insertion_orders": 3, "states": r.0, "transitions": r.1}));
+                states += r.0;
+                transitions += r.1;
+                rep.extend(r.2);
             }
             rep.sample(json!({"builder_history": ["register_type(u8)", "register_type(composite{me: next_type_id()})", "register_type(u8+docs[d])", "register_type(u8)"], "observed_in_every_state": ["next_type_id", "get(i) for i in {0,1,2,len-1,len,len+1,u32::MAX}", "finish"]}));
             rep.sample(json!({"interner_history": ["intern_or_get(7)", "intern_or_get(3)", "intern_or_get(7)"], "observed_in_every_state": ["get(&v) for all v", "resolve(symbol k) for k <= len+2 via a foreign interner", "elements"]}));
@@ -126,7 +141,10 @@ pub fn run(pid: &'static str, thorough: bool) -> i32 {
                     .par_iter()
                     .filter_map(|h| {
                         let r = tables::finish_of(h);
-                        vcommon::refs::well_formed(&r).err().map(|e| vcommon::evidence::Violation { key: "builder-finish-not-well-formed".into(), msg: format!("{e} — builder history {h:?}"), case: json!({"kind": "builder", "ops": h}) })
+                        // closure is demanded only when the inputs were closed (a forward reference may still be dangling)
+                        let n = r.types.len() as u32;
+                        let inputs_closed = r.types.iter().all(|t| vcommon::refs::ref_ids(&t.ty).iter().all(|i| *i < n));
+                        (if inputs_closed { vcommon::refs::well_formed(&r) } else { vcommon::refs::dense(&r) }).err().map(|e| vcommon::evidence::Violation { key: "builder-finish-not-well-formed".into(), msg: format!("{e} — builder history {h:?}"), case: json!({"kind": "builder", "ops": h}) })
                     })
                     .collect();
                 closed_checked += hs.len() as u64;
@@ -166,7 +184,7 @@ pub fn replay(pid: &str, body: &Value) -> i32 {
         Some("builder") | Some("interner") => {
             if pid == "C01" {
                 let h: Vec<u8> = case["ops"].as_array().unwrap().iter().map(|x| x.as_u64().unwrap() as u8).collect();
-                vcommon::refs::well_formed(&tables::finish_of(&h)).err().map(|e| ("builder-finish-not-well-formed".to_string(), e))
+                vcommon::refs::dense(&tables::finish_of(&h)).err().map(|e| ("builder-finish-not-well-formed".to_string(), e))
             } else {
                 tables::replay_case(case)
             }
